@@ -613,10 +613,12 @@ def resolve_lean(ctx, requests):
                 ctx.count('structural-agreement:table-update')
         elif kind == 'judge':
             case, pipeline, j, obs = payload
-            ctx.count('judge:%s:%s' % (pipeline, ans[0] if ans[0] != 'violates' else 'violates-' + ans[1]))
             if ans[0] == 'violates' and not case.inside:
+                ctx.count('judge:%s:outside-quantifier' % pipeline)
                 ctx.count('outside:differences-not-judged')
-            elif ans[0] == 'violates':
+                continue
+            ctx.count('judge:%s:%s' % (pipeline, ans[0] if ans[0] != 'violates' else 'violates-' + ans[1]))
+            if ans[0] == 'violates':
                 what = {'marks': 'the volatile marks of the program differ from "count depends on a volatile parameter"',
                         'counts': 'repetition counts differ from a fresh instantiation at the new values',
                         'play': 'the program plays a different waveform sequence than a fresh instantiation'}[ans[1]]
@@ -928,7 +930,7 @@ def run(ctx: core.Ctx):
         run_cases(ctx, exhaustive_cases(ctx), pipelines=('none', 'cleanup', 'tabor'))
         run_cases(ctx, sequence_cases(ctx, 50))
         run_cases(ctx, coincide_cases(ctx, 12))
-        run_cases(ctx, random_cases(ctx, 100, 6))
+        run_cases(ctx, random_cases(ctx, 85, 6))
     else:
         run_family_parallel(ctx, 'exhaustive', 28, 1, pipelines=('none', 'cleanup', 'flatten2', 'tabor', 'cleanup+tabor'),
                             extra=28)
